@@ -1,9 +1,9 @@
 package main
 
 import (
-	"sort"
 	"fmt"
 	"go/types"
+	"sort"
 	"strings"
 
 	"golang.org/x/tools/go/ssa"
@@ -486,10 +486,21 @@ func (p *Program) funcValueCandidates(sig *types.Signature) []*ssa.Function {
 							p.fnValues = append(p.fnValues, fn)
 						}
 					}
+					if mc, ok := in.(*ssa.MakeClosure); ok {
+						// a closure is a function value the closed-world enumeration does not contain
+						if cf, ok := mc.Fn.(*ssa.Function); ok {
+							p.closureSigs = append(p.closureSigs, cf.Signature)
+						}
+					}
 				}
 			}
 		}
 	})
+	for _, cs := range p.closureSigs {
+		if types.Identical(cs, sig) {
+			panic(unsupported{"dynamic call: a closure of this function type exists, the candidates are not a closed world"})
+		}
+	}
 	var out []*ssa.Function
 	for _, f := range p.fnValues {
 		if types.Identical(f.Signature, sig) {
